@@ -4,6 +4,7 @@ import SedpackDriver.Filler
 import SedpackDriver.Pool
 import SedpackDriver.Iter
 import SedpackDriver.Tree
+import SedpackDriver.Crash
 open Lean
 namespace Sedpack.Drv
 
@@ -17,6 +18,7 @@ def dispatch (m : String) (j : Json) : Except String Json :=
   | "batches" => batchesJ j
   | "tree" => tree j
   | "check" => checkJ j
+  | "crash" => crash j
   | _ => .error s!"unknown model {m}"
 
 end Sedpack.Drv
